@@ -138,13 +138,14 @@ def main():
                 thorough_h.append(c)
     for u in (0, 1):
         add(histories(u, 3))
-        add(histories(u, 4))
+        add(histories(u, 4, first=productive_first(u)))
         add(histories(u, 3, every=1))
-    add(histories(2, 0) + histories(2, 1) + histories(2, 2) + histories(2, 3))
+    add(histories(2, 0) + histories(2, 1) + histories(2, 2) + histories(2, 3, first=productive_first(2)))
     for u in (3, 4):
-        for d in (0, 1, 2, 3):
+        for d in (0, 1, 2):
             add(histories(u, d))
-    add(histories(5, 1) + histories(5, 2))
+        add(histories(u, 3, first=productive_first(u)))
+    add(histories(5, 1) + histories(5, 2, first=productive_first(5)))
 
     quick_s = []
     for u in (0, 1):
@@ -159,7 +160,8 @@ def main():
                 thorough_s.append(c)
     # three packages: C defines and exports the name (bits 4 and 5), everything else free
     c11 = [s for s in range(1 << 12) if s & 0x30 == 0x30]
-    thorough_s3 = steps(3, [0], states=c11) + steps(4, [0], states=c11)
+    thorough_s3 = (steps(3, [0], states=c11, ops=step_ops(3, pre=False)) +
+                   steps(4, [0], states=c11, ops=step_ops(4, pre=True, two_arg=False)))
     quick_s3 = steps(3, [0], states=[252, 3087, 0xFF0 | 0x3C], ops=step_ops(3, pre=True, two_arg=False))
 
     common = {"property": "C13", "pkg": "pkg/cl", "max_depth": 400, "max_steps": 50000000, "solver_timeout_ms": 10000,
@@ -175,8 +177,10 @@ def main():
                   "define, setq (variables), unbind, export, unexport, use-package and unuse-package of each other package "
                   "(14 / 12 / 22 instances for 2 packages, 27 / 24 / 42 for 3). QUICK: universes 0 and 1, every history of "
                   "length 0..2, length 3 with first operation defvar/export/use-package (variable) or defun/export (function); "
-                  "universe 2 length 2 (first operation defvar or defun) comparing after every step. THOROUGH: universes 0 and 1 exhaustively to length 4 (plus length 3 comparing after every "
-                  "step), universe 2 to length 3, universes 3 and 4 to length 3, universe 5 to length 2. " + COMMON_NOTE),
+                  "universe 2 length 2 (first operation defvar or defun) comparing after every step. THOROUGH: universes 0 and 1 exhaustively to length 3 (also comparing "
+                  "after every step) and length 4 with a first operation that changes the empty state (define, setq, export, "
+                  "use-package); universe 2 to length 3, universes 3 and 4 to length 3 (longest length: first operation as "
+                  "before), universe 5 to length 2. " + COMMON_NOTE),
         dict(common, id="C13.step", entry="VerifC13Step", reach=["compared"],
              cases={"quick": quick_s, "thorough": thorough_s},
              note="(i) one operation from an arbitrary pre-state of 2 packages, parameters (universe, order, state, op): the state "
@@ -190,8 +194,8 @@ def main():
         dict(common, id="C13.step3", entry="VerifC13Step", reach=["compared"],
              cases={"quick": quick_s3, "thorough": thorough_s3},
              note="(i) with 3 packages (12 state bits): THOROUGH: construction order 0, the 1024 states in which package C defines "
-                  "and exports the name, all 26 / 24 operations evaluated in A (one- and two-argument forms and qualified writes about B and C), variable "
-                  "and function universe (the other 3072 states per universe were explored natively with concrete values only, "
+                  "and exports the name, variable universe: all 25 operations evaluated in A (one- and two-argument forms and qualified writes about B "
+                  "and C); function universe: the pre-state and the 8 one-argument operations (the other 3072 states per universe were explored natively with concrete values only, "
                   "see the report). QUICK: three name-conflict states. " + COMMON_NOTE),
     ]
     fnote = ("witness case(s) of one known finding, parameters (region, universe, o1..o5) [three-package findings: (region, "
